@@ -778,7 +778,7 @@ designator(struct scope *s, struct type *t, unsigned long long *offset)
 			m = typemember(t, name, offset);
 			if (!m)
 				error(&tok.loc, "%s has no member named '%s'", t->kind == TYPEUNION ? "union" : "struct", name);
-			free(name);
+			/* do not free name: the token of a macro body shares it */
 			t = m->type;
 			break;
 		default:
@@ -839,7 +839,7 @@ builtinfunc(struct scope *s, enum builtinkind kind)
 			error(&tok.loc, "struct/union has no member named '%s'", name);
 		designator(s, m->type, &offset);
 		e = mkconstexpr(&typeulong, offset);
-		free(name);
+		/* do not free name: the token of a macro body shares it */
 		break;
 	case BUILTINTYPESCOMPATIBLEP:
 		t = typename(s, NULL, NULL);
